@@ -73,7 +73,24 @@ Definition p_drain (st : pstate) (cid : nat) : pstate * list string * bool (* cl
 Definition prow := (string * string * nat * nat)%type.
 Definition rows_of (st : pstate) : list prow := map (fun c => (pc_group c, pc_id c, pc_cid c, List.length (pc_buf c))) (ps_conns st).
 
+(* the listener address a long-poll request names: /group/id - the group is the first path segment, the id everything
+   after it, slashes included (ids are free-form: "a", "a/b", "a/", "" are four different listeners) *)
+Fixpoint cut_slash (s : string) : string * option string :=
+  match s with
+  | EmptyString => (EmptyString, None)
+  | String c s' => if Ascii.eqb c "/" then (EmptyString, Some s')
+                   else let '(a, b) := cut_slash s' in (String c a, b)
+  end.
+Definition poll_path (p : string) : option (string * string) :=
+  match p with
+  | String c rest =>
+    if Ascii.eqb c "/" then match cut_slash rest with (g, Some id) => Some (g, id) | (_, None) => None end
+    else None
+  | EmptyString => None
+  end.
+
 Inductive pcase :=
+| PPath (path : string) (obs : option (string * string))
 | PInit (max : nat)
 | PConnect (g id : string) (cid cap : nat) (obs : list prow * nat)
 | PDisconnect (cid : nat) (obs : list prow * nat)
@@ -89,6 +106,7 @@ Definition obs_ok (st : pstate) (obs : list prow * nat) : bool :=
 
 Definition pstep (st : pstate) (c : pcase) : option pstate :=
   match c with
+  | PPath path obs => if opt_eqb (pair_eqb String.eqb String.eqb) (poll_path path) obs then Some st else None
   | PInit max => Some (mkPS [] max)
   | PConnect g id cid cap obs => let st' := p_connect st g id cid cap in if obs_ok st' obs then Some st' else None
   | PDisconnect cid obs => let st' := p_disconnect st cid in if obs_ok st' obs then Some st' else None
